@@ -424,3 +424,57 @@ def check_fd_release(ck, prog, config, clause):
             ck.ob(clause, 'R6.fd-release', fn.name, inst, False, v.msg, v.node.file, v.node.line, path=v.path,
                   config=config)
     return n
+
+
+# ------------------------------------------------------------------ R7.std-fds
+def is_std_fd_reserver(prog, f):
+    """a function that opens "/dev/null" and compares the descriptor it got with 2 / STDERR_FILENO (in a loop):
+    it fills the standard descriptors so that later opens cannot land on them"""
+    from ..ir import walk_stmts
+    if f.body is None:
+        return False
+    opens = False
+    for ex in all_exprs(f):
+        for c in calls_in(ex):
+            if callee_name(c) in ('open', 'open64') and any(strip(a) is not None and strip(a).k == 'str' and
+                                                             'dev/null' in (strip(a).val or '') for a in c.a[1:]):
+                opens = True
+    cmp2 = any(n.k == 'bin' and n.op in ('<=', '<', '>', '>=') and (const_value(n.a[1]) in (2, 3) or const_value(n.a[0]) in (2, 3))
+               for ex in all_exprs(f) for n in walk(ex))
+    loop = any(s_.k in ('while', 'do', 'for') for s_ in walk_stmts(f.body))
+    return opens and cmp2 and loop
+
+
+def check_std_fds(ck, prog, config, clause):
+    """Diagnostics go to a fixed descriptor number; every tool therefore reserves descriptors 0..2 before it opens
+    anything (a file opened on descriptor 2 would receive the log lines)."""
+    from ..cfg import dominates
+    from .common import node_containing
+    reservers = set(f.name for f in prog.funcs.values() if is_std_fd_reserver(prog, f))
+    n = 0
+    for fn in sorted(prog.funcs.values(), key=lambda f: f.qname):
+        if fn.name != 'main' or prog.is_lib_unit(fn.unit):
+            continue
+        g = prog.cfg(fn)
+        opens = [c for c in calls_of(fn, ('open', 'open64', 'creat', 'fopen', 'mkstemp'))]
+        if not opens:
+            continue
+        n += 1
+        res = [c for c in calls_of(fn, tuple(reservers))] if reservers else []
+        rnodes = [node_containing(g, c.uid) for c in res]
+        bad = None
+        for c in opens:
+            nd = node_containing(g, c.uid)
+            if nd is None:
+                continue
+            if not any(r is not None and dominates(g, r, nd) for r in rnodes):
+                bad = c
+                break
+        tool = rel(fn.unit).split('/')[-1]
+        ck.ob(clause, 'R7.std-fds', tool, 'reserve-before-open', bad is None,
+              '%s: %d open call(s), each dominated by a call that fills descriptors 0..2 (%s)' % (
+                  tool, len(opens), ', '.join(sorted(reservers))) if bad is None else
+              '%s: open() at line %d can return descriptor 0, 1 or 2 when the tool is started with one of them closed; '
+              'diagnostics are written to descriptor 2 and end up inside that file (zck -vv -o out in 2>&-: log lines in '
+              'front of the magic, exit 0)' % (tool, bad.line), fn.file, bad.line if bad else fn.line, config=config)
+    return n
